@@ -173,7 +173,10 @@ def member_omission(fx, ck, name, scope):
     A skip decided by the *converted* value (`json_val.is_null()`) also drops NaN / Infinity members, which JSON.stringify writes as null."""
     import loops as L
     n = 0
-    ck.rule(name, "every path on which the exporter leaves a member out of an object passes the positive edge of a test of the source value for `Undefined`")
+    omitted_kinds = {}
+    member_omission.kinds = omitted_kinds
+    ck.rule(name, "every path on which the exporter leaves a member out of an object passes the positive edge of a test of what the source value is "
+                  "(`Undefined`, `Symbol`, callable)")
     for p, f in sorted(fx.fns.items()):
         if f.closure or not scope(f):
             continue
@@ -195,10 +198,23 @@ def member_omission(fx, ck, name, scope):
             if any(h2 != hd and set(ins) <= b2 and len(b2) < len(body) for h2, b2 in L.natural_loops(f)):
                 continue
             n += 1
+            # tests of what the source value IS: the Undefined / Symbol arms of a match on it, the true edge of `is_callable()`
             undef = set()
+            kinds_tested = set()
             for sb, en, place, arms, other, rest in M.enum_switches(fx, f):
-                if en.endswith("JsValue") and "Undefined" in arms and sb in body:
-                    undef.add(arms["Undefined"])
+                if en.endswith("JsValue") and sb in body:
+                    for v in ("Undefined", "Symbol"):
+                        if v in arms and {w for w, t2 in arms.items() if t2 == arms[v]} <= {"Undefined", "Symbol"}:
+                            undef.add(arms[v])
+                            kinds_tested.add(v)
+            import modlook
+            for bi, t in f.calls():
+                if bi in body and (t[1].get("d") or "").endswith("::is_callable"):
+                    tt = modlook.true_target(f, bi)
+                    if tt is not None:
+                        undef.add(tt)
+                        kinds_tested.add("Function")
+            omitted_kinds[p] = omitted_kinds.get(p, set()) | kinds_tested
             # a cycle through the header that avoids the insert and every Undefined edge = a member skipped for another reason
             stop = set(ins) | undef
             reach = M.reach_bool_sensitive(fx, f, f.succ(hd), stop=stop, within=body)
@@ -327,6 +343,19 @@ def run(tier):
                                           "source value for `Undefined`", floor=1)
     n4 = member_omission(fx, ck, "R4.omission-by-source-kind", lambda g: g.path.startswith("interpreter::builtins::json::") or g.path.startswith("ffi::"))
     ck.anchor(n4 >= 1, "member loop of the JSON exporter (serde_json::Map::insert)")
+    # R4c: the members that have no JSON representation ARE left out (the property: "with undefined/functions omitted")
+    ck.rule("R4c.unrepresentable-omitted", "the exporter's member loop tests the source value for each kind without a JSON representation (undefined, function, symbol) "
+                                           "and leaves such a member out", floor=3)
+    for p4, kinds4 in sorted(member_omission.kinds.items()):
+        if not p4.startswith("interpreter::builtins::json::"):
+            continue
+        for kind in ("Undefined", "Function", "Symbol"):
+            ok4 = kind in kinds4
+            ck.instance("R4c.unrepresentable-omitted", "%s: %s members" % (p4, kind), None, ok=ok4)
+            if not ok4:
+                ck.finding("R4c.unrepresentable-omitted", "R4c.unrepresentable-omitted/%s/%s" % (p4, kind), None,
+                           "`%s` never tests a member's value for %s in its member loop: such a member is written as `null` instead of being left out "
+                           "(`JSON.stringify({f(){}})` gives `{\"f\":null}`)" % (p4, kind))
     ctl = F.load_fixture()
     ck4 = Check("C16", tier, "", [])
     member_omission(ctl, ck4, "R4.omission-by-source-kind", lambda g: g.path.startswith("c16omit::"))
